@@ -691,6 +691,9 @@ func (g *graph) compile(ctx context.Context, opt *graphCompileOptions) (*composa
 		handlerPreNode[key] = append(make([]handlerPair, 0, len(handlers)+1), handlers...)
 	}
 
+	// the nodes whose input is assembled from mapped fields: what travels through their channel and pre-node
+	// handlers is the intermediate map[string]any, so that is also what "no data arrived" has to look like there
+	mappedInput := make(map[string]bool, len(g.fieldMappingRecords))
 	for key := range g.fieldMappingRecords {
 		// not allowed to map multiple fields to the same field
 		toMap := make(map[string]bool)
@@ -703,6 +706,7 @@ func (g *graph) compile(ctx context.Context, opt *graphCompileOptions) (*composa
 
 		// add map to input converter
 		handlerPreNode[key] = append(handlerPreNode[key], g.getNodeGenericHelper(key).inputFieldMappingConverter)
+		mappedInput[key] = true
 	}
 
 	key2SubGraphs := g.beforeChildGraphsCompile(opt)
@@ -788,6 +792,7 @@ func (g *graph) compile(ctx context.Context, opt *graphCompileOptions) (*composa
 		dataPredecessors:    dataPredecessors,
 
 		inputChannels: inputChannels,
+		mappedInput:   mappedInput,
 
 		eager: eager,
 
